@@ -6,7 +6,10 @@
 const { enumerate, addStats } = require('../lib/explore')
 
 // ---- G1 operand atoms (simplest first) ---------------------------------------------------------
-const ATOMS_Q = ["'lit'", '7', 'a', 'f()', 'o.p', 'o[k]', 'i++', '(a = E.a2)', 'g(1)', '1 + 2', 'a - 1']
+// the second line wraps the effectful call f() (which may reassign `a`) in every expression kind that
+// might be mistaken for something inert: array / object / template literal, conditional, new, unary, key
+const ATOMS_Q = ["'lit'", '7', 'a', 'f()', 'o.p', 'o[k]', 'i++', '(a = E.a2)', 'g(1)', '1 + 2', 'a - 1', '2 * 3',
+  '[f()]', '({p: f()})', '`${f()}`', '(c ? f() : b)', 'new X(f())', '-f()', 'o[f()]']
 const ATOMS_T = ATOMS_Q.concat(['this.q', '(c ? a : b)', '(a, b)', '[a, b]', '`t`', 'null', 'undefined', 'function(){return a}', '() => a', 'new X(a)', '-a', 'typeof a', 'o?.p', 's?.trim()', 'a * 2', "'l' + 'm'", '1 << 2', 'a || b', 'o.q.p', 'h(f(), a)'])
 
 // ---- G2 operation schemas ------------------------------------------------------------------------
@@ -120,7 +123,7 @@ const EXPRCTX = [
   '(() => @@)()', '(() => (@@))()', '(() => ({p: @@}))()', '((p = @@) => p)()', '(function(p = @@){return p})()', 'new (class { q = @@ })().q', '(class { static q = @@ }).q',
   'new (class { [@@](){} })', 'class extends (@@) {}', '(@@) ** 2', '(@@)?.q', 'y = @@', '[y] = [@@]', '({y = @@} = o)', '(@@, a)', '(a, @@)', '(@@) in o', '(@@) instanceof X', 'o[@@]', 'o[@@] = a', '(@@).p = a'
 ]
-const EXPRCTX_ASYNC = ['await (@@)', 'await @@', '(async () => @@)()']
+const EXPRCTX_ASYNC = ['await (@@)', 'await @@', '(async () => @@)()', '(async () => await (@@))()', '(async (q) => (await q) + (@@))(a)']
 const EXPRCTX_GEN = ['yield (@@)', 'yield @@', 'yield* [@@]']
 
 // ---- G4 statement contexts ---------------------------------------------------------------------------
